@@ -562,16 +562,16 @@ theorem intervalTokens_cons (v : Int) (vs : List Int) (u : Bytes) (us : List Byt
 
 def unitAt (i : Nat) : Bytes := unitNames.getD i []
 
-theorem unitIndex_unitAt (i : Nat) (h : i < 6) :
+theorem unitIndex_unitAt (i : Nat) (h : i < 7) :
     unitIndex (unitAt i) = some i ∧ unitIndex (unitAt i ++ [115]) = some i ∧
     tokOk (unitAt i) = true ∧ tokOk (unitAt i ++ [115]) = true := by
-  have : i = 0 ∨ i = 1 ∨ i = 2 ∨ i = 3 ∨ i = 4 ∨ i = 5 := by omega
-  rcases this with h | h | h | h | h | h <;> subst h <;> decide
+  have : i = 0 ∨ i = 1 ∨ i = 2 ∨ i = 3 ∨ i = 4 ∨ i = 5 ∨ i = 6 := by omega
+  rcases this with h | h | h | h | h | h | h <;> subst h <;> decide
 
 theorem inI32_iff (v : Int) : inI32 v = true ↔ (i32Lo ≤ v ∧ v ≤ i32Hi) := by
   simp [inI32]
 
-theorem loop_field (i : Nat) (hi : i < 6) (v : Int) (hv : inI32 v = true) (fs : List Int)
+theorem loop_field (i : Nat) (hi : i < 7) (v : Int) (hv : inI32 v = true) (fs : List Int)
     (hz : v = 0 → fs.set i v = fs) (rest : List Bytes) :
     intervalLoop (fieldToks v (unitAt i) ++ rest) fs none = intervalLoop rest (fs.set i v) none := by
   unfold fieldToks
@@ -589,7 +589,7 @@ theorem loop_field (i : Nat) (hi : i < 6) (v : Int) (hv : inI32 v = true) (fs : 
       · exact hu.2.1
     rw [hui]
 
-theorem tokOk_fieldToks (i : Nat) (hi : i < 6) (v : Int) : (fieldToks v (unitAt i)).all tokOk = true := by
+theorem tokOk_fieldToks (i : Nat) (hi : i < 7) (v : Int) : (fieldToks v (unitAt i)).all tokOk = true := by
   have hu := unitIndex_unitAt i hi
   unfold fieldToks
   split
@@ -616,35 +616,38 @@ theorem tdm (a b : Int) (hb : 0 < b) :
     rw [Int.neg_tdiv] at h3
     omega
 
-theorem intervalTokens6 (a b c d e f : Int) :
-    intervalTokens [a, b, c, d, e, f] unitNames =
+theorem intervalTokens7 (a b c d e f g : Int) :
+    intervalTokens [a, b, c, d, e, f, g] unitNames =
       fieldToks a (unitAt 0) ++ (fieldToks b (unitAt 1) ++ (fieldToks c (unitAt 2) ++
-        (fieldToks d (unitAt 3) ++ (fieldToks e (unitAt 4) ++ (fieldToks f (unitAt 5) ++ []))))) := rfl
+        (fieldToks d (unitAt 3) ++ (fieldToks e (unitAt 4) ++ (fieldToks f (unitAt 5) ++
+          (fieldToks g (unitAt 6) ++ [])))))) := rfl
 
-theorem allTokOk_fields (a b c d e f : Int) :
-    (intervalTokens [a, b, c, d, e, f] unitNames).all tokOk = true := by
-  rw [intervalTokens6]
+theorem allTokOk_fields (a b c d e f g : Int) :
+    (intervalTokens [a, b, c, d, e, f, g] unitNames).all tokOk = true := by
+  rw [intervalTokens7]
   simp only [List.all_append, List.all_nil, Bool.and_true,
     tokOk_fieldToks 0 (by decide), tokOk_fieldToks 1 (by decide), tokOk_fieldToks 2 (by decide),
     tokOk_fieldToks 3 (by decide), tokOk_fieldToks 4 (by decide), tokOk_fieldToks 5 (by decide),
-    Bool.and_self]
+    tokOk_fieldToks 6 (by decide), Bool.and_self]
 
-theorem loop_fields (a b c d e f : Int) (ha : inI32 a = true) (hb : inI32 b = true)
-    (hc : inI32 c = true) (hd : inI32 d = true) (he : inI32 e = true) (hf : inI32 f = true) :
-    intervalLoop (intervalTokens [a, b, c, d, e, f] unitNames) [0, 0, 0, 0, 0, 0] none =
-      .ok [a, b, c, d, e, f] := by
-  rw [intervalTokens6]
+theorem loop_fields (a b c d e f g : Int) (ha : inI32 a = true) (hb : inI32 b = true)
+    (hc : inI32 c = true) (hd : inI32 d = true) (he : inI32 e = true) (hf : inI32 f = true)
+    (hg : inI32 g = true) :
+    intervalLoop (intervalTokens [a, b, c, d, e, f, g] unitNames) [0, 0, 0, 0, 0, 0, 0] none =
+      .ok [a, b, c, d, e, f, g] := by
+  rw [intervalTokens7]
   rw [loop_field 0 (by decide) a ha _ (by intro h; subst h; rfl),
     loop_field 1 (by decide) b hb _ (by intro h; subst h; rfl),
     loop_field 2 (by decide) c hc _ (by intro h; subst h; rfl),
     loop_field 3 (by decide) d hd _ (by intro h; subst h; rfl),
     loop_field 4 (by decide) e he _ (by intro h; subst h; rfl),
-    loop_field 5 (by decide) f hf _ (by intro h; subst h; rfl)]
+    loop_field 5 (by decide) f hf _ (by intro h; subst h; rfl),
+    loop_field 6 (by decide) g hg _ (by intro h; subst h; rfl)]
   rfl
 
-/-- intervals with a whole number of seconds survive Display + FromStr -/
+/-- EVERY interval with i32 fields survives Display + FromStr (milliseconds included since 2c03e9c) -/
 theorem parseInterval_displayInterval (m d ms : Int) (hm : inI32 m = true) (hd : inI32 d = true)
-    (hms : inI32 ms = true) (hsec : ms % 1000 = 0) :
+    (hms : inI32 ms = true) :
     parseInterval (displayInterval m d ms) = .ok (m, d, ms) := by
   rw [inI32_iff] at hm hd hms
   simp only [i32Lo, i32Hi] at hm hd hms
@@ -653,7 +656,7 @@ theorem parseInterval_displayInterval (m d ms : Int) (hm : inI32 m = true) (hd :
   obtain ⟨t1, t2, t3⟩ := tdm (ms.tdiv 1000) 60 (by decide)
   obtain ⟨u1, u2, u3⟩ := tdm ((ms.tdiv 1000).tdiv 60) 60 (by decide)
   unfold parseInterval displayInterval intervalFields
-  rw [tokenize_joinSp _ (allTokOk_fields _ _ _ _ _ _)]
+  rw [tokenize_joinSp _ (allTokOk_fields _ _ _ _ _ _ _)]
   generalize hy : m.tdiv 12 = y at *
   generalize hmo : m.tmod 12 = mo at *
   generalize hsm : ms.tmod 1000 = sm at *
@@ -662,16 +665,13 @@ theorem parseInterval_displayInterval (m d ms : Int) (hm : inI32 m = true) (hd :
   generalize hM : S.tdiv 60 = M at *
   generalize hmi : M.tmod 60 = mi at *
   generalize hh : M.tdiv 60 = h at *
-  have hsm0 : sm = 0 := by
-    rcases Int.le_total 0 ms with hp | hp
-    · have := s2 hp; omega
-    · have := s3 hp; omega
   have bounds : (i32Lo ≤ y ∧ y ≤ i32Hi) ∧ (i32Lo ≤ mo ∧ mo ≤ i32Hi) ∧ (i32Lo ≤ h ∧ h ≤ i32Hi) ∧
       (i32Lo ≤ mi ∧ mi ≤ i32Hi) ∧ (i32Lo ≤ se ∧ se ≤ i32Hi) ∧
       (i32Lo ≤ h * 60 ∧ h * 60 ≤ i32Hi) ∧ (i32Lo ≤ h * 60 + mi ∧ h * 60 + mi ≤ i32Hi) ∧
       (i32Lo ≤ (h * 60 + mi) * 60 ∧ (h * 60 + mi) * 60 ≤ i32Hi) ∧
       (i32Lo ≤ (h * 60 + mi) * 60 + se ∧ (h * 60 + mi) * 60 + se ≤ i32Hi) ∧
-      (i32Lo ≤ y * 12 ∧ y * 12 ≤ i32Hi) := by
+      (i32Lo ≤ y * 12 ∧ y * 12 ≤ i32Hi) ∧ (i32Lo ≤ sm ∧ sm ≤ i32Hi) ∧
+      (i32Lo ≤ ((h * 60 + mi) * 60 + se) * 1000 ∧ ((h * 60 + mi) * 60 + se) * 1000 ≤ i32Hi) := by
     simp only [i32Lo, i32Hi]
     rcases Int.le_total 0 ms with hp | hp <;> rcases Int.le_total 0 m with hq | hq
     all_goals (
@@ -684,21 +684,22 @@ theorem parseInterval_displayInterval (m d ms : Int) (hm : inI32 m = true) (hd :
            have a3 := t3 (by omega); have a4 := u3 (by omega); omega)
         | (have a1 := s3 hp; have a2 := m3 hq
            have a3 := t3 (by omega); have a4 := u3 (by omega); omega))
-  obtain ⟨b1, b2, b3, b4, b5, b6, b7, b8, b9, b10⟩ := bounds
-  rw [loop_fields y mo d h mi se ((inI32_iff _).mpr b1) ((inI32_iff _).mpr b2)
+  obtain ⟨b1, b2, b3, b4, b5, b6, b7, b8, b9, b10, b11, b12⟩ := bounds
+  rw [loop_fields y mo d h mi se sm ((inI32_iff _).mpr b1) ((inI32_iff _).mpr b2)
     ((inI32_iff _).mpr (by simp only [i32Lo, i32Hi]; exact hd)) ((inI32_iff _).mpr b3)
-    ((inI32_iff _).mpr b4) ((inI32_iff _).mpr b5)]
+    ((inI32_iff _).mpr b4) ((inI32_iff _).mpr b5) ((inI32_iff _).mpr b11)]
   have e1 : y * 12 + mo = m := by omega
-  have e2 : ((h * 60 + mi) * 60 + se) * 1000 = ms := by omega
+  have e2 : ((h * 60 + mi) * 60 + se) * 1000 + sm = ms := by omega
   have c1 := (inI32_iff _).mpr b10
   have c2 : inI32 m = true := by rw [inI32_iff]; simp only [i32Lo, i32Hi]; exact hm
   have c3 := (inI32_iff _).mpr b6
   have c4 := (inI32_iff _).mpr b7
   have c5 := (inI32_iff _).mpr b8
   have c6 := (inI32_iff _).mpr b9
-  have c7 : inI32 ms = true := by
+  have c7 := (inI32_iff _).mpr b12
+  have c8 : inI32 ms = true := by
     rw [inI32_iff]; simp only [i32Lo, i32Hi]; exact hms
-  simp only [c1, c2, c3, c4, c5, c6, c7, Bool.and_self, if_true, e1, e2]
+  simp only [c1, c2, c3, c4, c5, c6, c7, c8, Bool.and_self, if_true, e1, e2]
 
 /-! ### timestamps -/
 
